@@ -510,6 +510,7 @@ fn mixed_grid(thorough: bool) -> Vec<Case> {
                                 s.toi_init = Some(init.clone());
                                 s.full_fdt = full_fdt;
                                 s.rfc3926 = ti == 1;
+                                s.tsi = [1u64, 0xFFFF, 0x1_0000, 0xFFFF_FFFF_FFFF][ti];
                                 s.sct = ti != 2;
                                 let mut objs = Vec::new();
                                 for (j, sch) in [a, b, c].into_iter().enumerate() {
